@@ -99,6 +99,9 @@ func (e *Ev) evCall(x *ast.CallExpr) Val {
 			e.fx.trusted["unicode.Is(tab, r) <=> r lies in one of the ranges of tab; rangetable.Merge is the union of its arguments (assumed; the merged table is re-validated against the real package in the replay harness)"] = true
 			return VBool{e.fx.name(sortBool, "intab", sOr(ds...))}
 		}
+		if v, ok := e.upperPrefixIdiom(x, fn); ok {
+			return v
+		}
 		r := e.callFunc(x, fn, nil, false)
 		e.anyOfFact(x, fn, r)
 		return r
@@ -292,7 +295,13 @@ func (e *Ev) evBuiltin(x *ast.CallExpr, name string) Val {
 			return cur
 		}
 		e.unsupp(x, "append to %T", base)
-	case "copy", "delete", "new", "cap":
+	case "new":
+		if t := e.typeOf(x.Args[0]); t != nil && isBuffer(t) {
+			e.fx.useSeq = true
+			return VBuf{"bs_empty", "0"} // a *bytes.Buffer variable is modelled as the buffer itself
+		}
+		e.unsupp(x, "new of %s", exprString(x.Args[0]))
+	case "copy", "delete", "cap":
 		e.unsupp(x, "builtin %s is not modelled", name)
 	}
 	e.unsupp(x, "builtin %s", name)
@@ -583,7 +592,7 @@ func (e *Ev) packVariadic(as []ast.Expr, sliceT types.Type, n ast.Node) Val {
 	if isEmptyInterface(st.Elem()) {
 		r := VIfaces{N: fmt.Sprintf("%d", len(as)), Tag: "((as const (Array Int Int)) 0)", B: e.fx.constArrArr(), O: "((as const (Array Int Int)) 0)", L: "((as const (Array Int Int)) 0)"}
 		for i, a := range as {
-			iv := e.toIface(e.ev(a), a)
+			iv := e.toIfaceLenient(a)
 			k := fmt.Sprintf("%d", i)
 			r.Tag = fmt.Sprintf("(store %s %s %s)", r.Tag, k, iv.Tag)
 			r.B = fmt.Sprintf("(store %s %s %s)", r.B, k, iv.S.B)
@@ -656,6 +665,17 @@ func (e *Ev) applyContract(x ast.Node, con *Contract, fn *types.Func, recv Val, 
 		}
 		t := preEv.boolOf(preEv.ev(rq.Expr), rq.Expr)
 		fx.obligeN("pre", "pre."+shortKey(con.Key)+"."+lbl+"@call", x.Pos(), e.st.pc, t, "precondition of "+con.Key+": "+rq.Text)
+	}
+	// recursion: the callee's variant must be smaller than the caller's at entry
+	if con.Key == fx.key {
+		if con.Decreases == nil {
+			fx.obligeN("decreases", "recursion.decreases@call", x.Pos(), e.st.pc, "false", "recursive call without a decreases clause")
+		} else {
+			m1 := preEv.intOf(preEv.ev(con.Decreases.Expr), con.Decreases.Expr)
+			ce := fx.clauseEv(fx.entry, fx.decl.Body.Lbrace+1, nil)
+			m0 := ce.intOf(ce.ev(con.Decreases.Expr), con.Decreases.Expr)
+			fx.obligeN("decreases", "recursion.decreases@call", x.Pos(), e.st.pc, sAnd(sLe("0", m1), sLt(m1, m0)), "the variant decreases at the recursive call: "+con.Decreases.Text)
+		}
 	}
 	// heap effects
 	e.havocHeapFor(con)
@@ -809,4 +829,57 @@ func (e *Ev) callChoice(x *ast.CallExpr, ch VFuncChoice) Val {
 		acc = e.fx.iteVal(ch.Conds[i], outs[i], acc)
 	}
 	return acc
+}
+
+// toIfaceLenient evaluates an argument that is passed as interface{}; what cannot be modelled
+// becomes a value of dynamic type "other" (such arguments only feed messages).
+func (e *Ev) toIfaceLenient(a ast.Expr) (iv VIface) {
+	defer func() {
+		if r := recover(); r != nil {
+			if _, ok := r.(unsupported); ok {
+				iv = VIface{Tag: fmt.Sprintf("%d", tagOther), S: e.fx.strLit("")}
+				return
+			}
+			panic(r)
+		}
+	}()
+	return e.toIface(e.ev(a), a)
+}
+
+// upperPrefixIdiom: bytes.HasPrefix(bytes.ToUpper(x), LIT) with an ASCII literal without lower-case
+// letters is "x starts with LIT, ASCII case-insensitively" (assumed contract of the composition:
+// ToUpper maps an ASCII prefix byte by byte and a non-ASCII rune to non-ASCII bytes).
+func (e *Ev) upperPrefixIdiom(x *ast.CallExpr, fn *types.Func) (Val, bool) {
+	if fn.Pkg() == nil || fn.Pkg().Path() != "bytes" || fn.Name() != "HasPrefix" || len(x.Args) != 2 {
+		return nil, false
+	}
+	inner, ok := unparen(x.Args[0]).(*ast.CallExpr)
+	if !ok {
+		return nil, false
+	}
+	ifn := e.calleeFunc(inner)
+	if ifn == nil || ifn.Pkg() == nil || ifn.Pkg().Path() != "bytes" || ifn.Name() != "ToUpper" || len(inner.Args) != 1 {
+		return nil, false
+	}
+	lit, ok := e.ev(x.Args[1]).(VStr)
+	if !ok || lit.Lit == nil {
+		return nil, false
+	}
+	for i := 0; i < len(*lit.Lit); i++ {
+		c := (*lit.Lit)[i]
+		if c >= 0x80 || c >= 'a' && c <= 'z' {
+			return nil, false
+		}
+	}
+	s, ok := e.ev(inner.Args[0]).(VStr)
+	if !ok {
+		return nil, false
+	}
+	e.fx.specUsed["asciiupper"] = true
+	cs := []Term{sLe(fmt.Sprintf("%d", len(*lit.Lit)), s.L)}
+	for i := 0; i < len(*lit.Lit); i++ {
+		cs = append(cs, fmt.Sprintf("(= (asciiupper (select %s %s)) %d)", s.B, sAdd(s.O, fmt.Sprintf("%d", i)), (*lit.Lit)[i]))
+	}
+	e.fx.trusted["bytes.HasPrefix(bytes.ToUpper(x), ASCII literal) <=> x starts with the literal ASCII-case-insensitively (assumed contract of the composition)"] = true
+	return VBool{e.fx.name(sortBool, "upfx", sAnd(cs...))}, true
 }
